@@ -73,6 +73,25 @@ def mkRequest (cfg : Cfg) (prev : Prev) (reference : String) (now : Int) : Req :
   else
     { interleaved := false, origin := zero64, rx := zero64, tx := ofTime now, cTx0 := now }
 
+/-- first byte of every request: `SetVersion(ntp.VersionMax); SetMode(ntp.ModeClient)` on a zero packet -/
+def requestLVM : Nat := 4 * 8 + 3
+
+/-- `netip.AddrFromSlice(localAddr.IP)` succeeds iff the slice has 4 or 16 bytes. -/
+def localAddrOk (iplen : Nat) : Bool := iplen == 4 || iplen == 16
+
+/-- What the two per-exchange functions do before anything is sent, as a function of the
+    local address: `none` = go on, `some r` = return `r` (`Attempt.ok 0 0 _` is Go's
+    `(time.Time{}, 0, nil)`). `entryOld` is the code before the `fix:` commit for finding F13:
+    the named result `err` is still nil at that point. -/
+inductive EntryResult where
+  | proceed
+  | errAddr
+  | successZeroOld
+deriving Repr, DecidableEq
+
+def entry (iplen : Nat) : EntryResult := if localAddrOk iplen then .proceed else .errAddr
+def entryOld (iplen : Nat) : EntryResult := if localAddrOk iplen then .proceed else .successZeroOld
+
 /-- the fields of a decoded `ntp.Packet` the client reads -/
 structure NtpPkt where
   lvm : Nat
@@ -106,6 +125,7 @@ inductive ErrKind where
   | ntsDecode     -- nts.DecodePacket failed
   | ntsProcess    -- nts.ProcessResponse failed (unique id or AEAD)
   | response      -- ntp.errUnexpectedResponse (metadata, or t2 before t1)
+  | other         -- anything returned before the receive loop (listen, deadline, key exchange, write)
 deriving Repr, DecidableEq
 
 /-- `(t0,t1,t2,t3)` of an accepted response, `interleavedResp`, the receive time that
@@ -251,9 +271,21 @@ inductive Outcome where
   | blocked
 deriving Repr, DecidableEq
 
+/-- `const maxNumRetries = 1` -/
+def maxNumRetries : Nat := 1
+
+/-- only an accepted response carries a timestamp and an offset back to the caller -/
+def Outcome.hasOffset : Outcome → Bool
+  | .accepted _ _ => true
+  | _ => false
+
+def Step.isAccept : Step → Bool
+  | .accept _ => true
+  | _ => false
+
 /-- `numRetries != maxNumRetries && deadlineIsSet && timebase.Now().Before(deadline)` -/
 def mayRetry (numRetries : Nat) (deadlineSet before : Bool) : Bool :=
-  numRetries != 1 && deadlineSet && before
+  numRetries != maxNumRetries && deadlineSet && before
 
 /-- the receive loop (`for { … }`), `n` = number of events consumed so far -/
 def runLoop {D : Type} (classify : Int → D → Step) (deadlineSet : Bool) :
@@ -297,17 +329,17 @@ def exchangeIP (cfg : Cfg) (server : Nat) (prev : Prev) (reference : String) (no
     (evs : List (Event IpDgram)) : Outcome × Prev :=
   let req := mkRequest cfg prev reference now
   let out := runLoop (fun cRx d => classifyIP cfg server prev req cTx1 cRx d) cfg.deadlineSet 0 0 evs
-  match out with
-  | .accepted a _ => (out, updatePrev cfg prev reference cTx1 a)
-  | _ => (out, prev)
+  (out, match out with
+    | .accepted a _ => updatePrev cfg prev reference cTx1 a
+    | _ => prev)
 
 def exchangeSCION (cfg : Cfg) (sc : ScionCtx) (prev : Prev) (reference : String) (now cTx1 : Int)
     (evs : List (Event ScionDgram)) : Outcome × Prev :=
   let req := mkRequest cfg prev reference now
   let out := runLoop (fun cRx d => classifySCION cfg sc prev req cTx1 cRx d) cfg.deadlineSet 0 0 evs
-  match out with
-  | .accepted a _ => (out, updatePrev cfg prev reference cTx1 a)
-  | _ => (out, prev)
+  (out, match out with
+    | .accepted a _ => updatePrev cfg prev reference cTx1 a
+    | _ => prev)
 
 /-- result of one `measureClockOffsetIP` call as `MeasureClockOffsetIP` sees it:
     `(t, o, nil)` together with `InInterleavedMode()` evaluated after the call, or an error. -/
